@@ -230,7 +230,7 @@ def obligations(tier: str, seed: int):
                     obs.append((f"quadratic-D{D}-{mode}", ob_quadratic, dict(D=D, mode=mode, shape=qshape)))
         obs.append((f"affine-D{D}-default-mode", ob_affine, dict(D=D, mode=None, sp_kind="axis", N=1, shape=shapes[D][0])))
         for mode in ("gaussian", "central", "bspline") if D == 2 or tier == "thorough" else ("gaussian",):
-            obs.append((f"axis-spacing-D{D}-{mode}", ob_axis_spacing, dict(D=D, mode=mode, shape=(4, 5) if D == 2 else (3, 4, 3))))
+            obs.append((f"axis-spacing-D{D}-{mode}", ob_axis_spacing, dict(D=D, mode=mode, shape=(4, 5) if D == 2 else ((4, 4, 5) if mode == "bspline" else (3, 4, 3)))))
         for stride in ((1, 2) if tier == "quick" else (1, 2, 3)):
             obs.append((f"bspline-D{D}-stride{stride}", ob_bspline, dict(D=D, stride=stride, shape=(5, 6) if D == 2 else (5, 5, 6))))
     return obs
